@@ -26,6 +26,7 @@ import (
 
 	"kgsim/sim"
 	"kgsim/simnet"
+	"kgsim/tape"
 )
 
 type c09Schema struct {
@@ -36,6 +37,10 @@ type c09Schema struct {
 	global   int32
 	lburst   int32
 	gburst   int32
+	// after the global limit was lowered the previous one is tolerated until
+	// the gateway has applied one server answer that arrived afterwards
+	graceOld  int32
+	graceFrom int
 }
 
 type scriptState struct {
@@ -44,9 +49,12 @@ type scriptState struct {
 	leader    bool // server-info names a leader
 	honest    bool // recovery phase
 	honestQ   map[string]int32
+	sticky    bool // a stale server: repeats its previous answer for each schema
+	last      map[string][2]int32
 	allocSeen int
 	acqSeen   int
-	draw      func(n int) int
+	draw      func(n int) int // keyed sub-streams, see drawK
+	drawK     func(key string, n int) int
 	schemas   map[string]*c09Schema
 	run       *sim.Run
 }
@@ -83,13 +91,16 @@ func (s *scriptState) ServeHTTP(w http.ResponseWriter, r *http.Request) {
 			w.WriteHeader(400)
 			return
 		}
-		if !s.honest && s.draw(6) == 0 {
+		if !s.honest && s.drawK("alloc500", 6) == 0 {
 			s.run.Fault("byzantine_reply")
 			w.WriteHeader(500)
 			w.Write([]byte(`{"kind":"Status","apiVersion":"v1","status":"Failure","message":"report status error: boom","code":500}`))
 			return
 		}
 		var items []proxyv1alpha1.RateLimitItemConfiguration
+		sort.SliceStable(c.Spec.LimitItemConfigurations, func(i, j int) bool {
+			return c.Spec.LimitItemConfigurations[i].Name < c.Spec.LimitItemConfigurations[j].Name
+		})
 		for _, it := range c.Spec.LimitItemConfigurations {
 			sc := s.schemas[it.Name]
 			if sc == nil {
@@ -103,12 +114,21 @@ func (s *scriptState) ServeHTTP(w http.ResponseWriter, r *http.Request) {
 				if sc.tb {
 					b = int32(math.Ceil(float64(q) / float64(sc.global) * float64(sc.gburst)))
 				}
+			} else if prev, ok := s.last[it.Name]; ok && s.sticky {
+				q, b = prev[0], prev[1]
+				s.run.Fault("stale_reply")
 			} else {
 				vals := byzVals(sc.local, sc.global)
-				q = vals[s.draw(len(vals))]
-				b = vals[s.draw(len(vals))]
+				k := "alloc/" + it.Name
+				q = vals[s.drawK(k, len(vals))]
+				if s.drawK(k, 3) == 0 {
+					// a plausible quota rather than an extreme one
+					q = 1 + int32(s.drawK(k, int(sc.global)))
+				}
+				b = vals[s.drawK(k, len(vals))]
 				s.run.Fault("byzantine_reply")
 			}
+			s.last[it.Name] = [2]int32{q, b}
 			if sc.tb {
 				out.TokenBucket = &proxyv1alpha1.TokenBucketFlowControlSchema{QPS: q, Burst: b}
 			} else {
@@ -128,7 +148,13 @@ func (s *scriptState) ServeHTTP(w http.ResponseWriter, r *http.Request) {
 			w.WriteHeader(400)
 			return
 		}
-		if !s.honest && s.draw(6) == 0 {
+		// the gateway lists the schemas in map order
+		sort.SliceStable(a.Spec.Requests, func(i, j int) bool { return a.Spec.Requests[i].FlowControl < a.Spec.Requests[j].FlowControl })
+		akey := "acq500"
+		if len(a.Spec.Requests) > 0 {
+			akey += "/" + a.Spec.Requests[0].FlowControl
+		}
+		if !s.honest && s.drawK(akey, 6) == 0 {
 			s.run.Fault("byzantine_reply")
 			w.WriteHeader(500)
 			w.Write([]byte(`{"message":"acquire failed"}`))
@@ -143,9 +169,10 @@ func (s *scriptState) ServeHTTP(w http.ResponseWriter, r *http.Request) {
 			} else {
 				s.run.Fault("byzantine_reply")
 				vals := byzVals(sc.local, sc.global)
-				res.Accept = s.draw(2) == 0
-				res.Limit = vals[s.draw(len(vals))]
-				switch s.draw(8) {
+				k := "acq/" + rq.FlowControl
+				res.Accept = s.drawK(k, 2) == 0
+				res.Limit = vals[s.drawK(k, len(vals))]
+				switch s.drawK(k, 8) {
 				case 0:
 					res.Error = "RequestIDTooOld"
 				case 1:
@@ -186,7 +213,7 @@ func RunC09(r *sim.Run) {
 
 	// schemas: local <= global as validation requires
 	nS := t.Range(1, 2)
-	st := &scriptState{ready: true, leader: true, honestQ: map[string]int32{}, schemas: map[string]*c09Schema{}, run: r}
+	st := &scriptState{ready: true, leader: true, honestQ: map[string]int32{}, last: map[string][2]int32{}, schemas: map[string]*c09Schema{}, run: r}
 	var schemas []*c09Schema
 	var spec proxyv1alpha1.FlowControl
 	for i := 0; i < nS; i++ {
@@ -221,13 +248,22 @@ func RunC09(r *sim.Run) {
 		prei++
 		return v % n
 	}
+	// one sub-stream per (RPC kind, schema): the gateway sends schemas in map
+	// order and may issue RPCs of different schemas in either order; neither
+	// may decide which answer a schema gets
+	kcnt := map[string]int{}
+	st.drawK = func(key string, n int) int {
+		v := pre[(int(tape.HashString(key)%uint64(len(pre)))+kcnt[key]*7919)%len(pre)]
+		kcnt[key]++
+		return v % n
+	}
 	net.AddNode("rl-0:8443", st)
 
 	ctx, cancel := context.WithCancel(context.Background())
 	defer cancel()
 	cs := clientsets.NewClientSetsWithRestConfig(ctx, "http://rl-0:8443", "gw", &rest.Config{Transport: net.RoundTripper("gw-0")})
 	lim := flowcontrols.NewUpstreamLimiter(ctx, "up1", "", cs)
-	lim.Sync(spec)
+	lim.Sync(*spec.DeepCopy())
 	lim.ResetLimiter(flowcontrol.RemoteFlowControls)
 	sc.Settle()
 
@@ -239,9 +275,60 @@ func RunC09(r *sim.Run) {
 	violated := func(class, sig, format string, a ...interface{}) {
 		r.Violate(class, sig, format, a...)
 	}
+	allocReturned := 0
+	net.OnServed = func(m *simnet.Msg) {
+		// what was asked, without the instance's name (it contains the process id)
+		var what []string
+		switch m.Kind {
+		case "allocate":
+			var c proxyv1alpha1.RateLimitCondition
+			if json.Unmarshal(m.Body, &c) == nil {
+				for _, it := range c.Spec.LimitItemConfigurations {
+					q := int32(-1)
+					if it.MaxRequestsInflight != nil {
+						q = it.MaxRequestsInflight.Max
+					} else if it.TokenBucket != nil {
+						q = it.TokenBucket.QPS
+					}
+					what = append(what, fmt.Sprintf("%s=%d", it.Name, q))
+				}
+				for _, st := range c.Status.LimitItemStatuses {
+					what = append(what, fmt.Sprintf("%s.level=%d", st.Name, st.RequestLevel))
+				}
+			}
+		case "acquire":
+			var a proxyv1alpha1.RateLimitAcquire
+			if json.Unmarshal(m.Body, &a) == nil {
+				for _, rq := range a.Spec.Requests {
+					what = append(what, fmt.Sprintf("%s:%d", rq.FlowControl, rq.Tokens))
+				}
+			}
+		}
+		sort.Strings(what)
+		r.Logf("  rpc %s #%d -> %d at %v %v", m.Kind, m.Seq, m.Status, now(), what)
+	}
+	net.OnReturned = func(m *simnet.Msg) {
+		if m.Kind == "allocate" && m.Status == 200 {
+			allocReturned++
+		}
+	}
+	// globalBound: the configured global limit, or the previous one while the
+	// gateway cannot yet know a server answer to clamp against the new one
+	globalBound := func(s *c09Schema) int {
+		if s.graceOld > s.global {
+			return int(s.graceOld)
+		}
+		return int(s.global)
+	}
 	request := func(s *c09Schema, hold time.Duration) {
 		reqN++
-		go func() {
+		id := reqN
+		// the admission decision is taken here, in the driver's own order (it
+		// never blocks); only the time the request spends upstream runs as a
+		// goroutine of its own. No two requests end at the same fake instant,
+		// nor at an instant at which one of the system's periodic timers fires.
+		hold += time.Duration(id)*time.Microsecond + 137*time.Nanosecond
+		func() {
 			fc := lim.GetOrDefault(s.name)
 			via := "default"
 			if cache := lim.AllFlowControls()[s.name]; cache != nil {
@@ -254,12 +341,14 @@ func RunC09(r *sim.Run) {
 			if !fc.TryAcquire() {
 				mu.Lock()
 				r.Probe("refused_" + via)
+				r.Logf("  #%d %s via %s refused at %v", id, s.name, via, now())
 				mu.Unlock()
 				return
 			}
 			mu.Lock()
 			k := s.name + "|" + via
 			inflight[k]++
+			r.Logf("  #%d %s via %s admitted at %v (%d in flight there)", id, s.name, via, now(), inflight[k])
 			if inflight[k] > maxSeen[k] {
 				maxSeen[k] = inflight[k]
 			}
@@ -268,37 +357,41 @@ func RunC09(r *sim.Run) {
 			nowIn := inflight[k]
 			total := inflight[s.name+"|remote"] + inflight[s.name+"|local"]
 			nRemote, nLocal := inflight[s.name+"|remote"], inflight[s.name+"|local"]
+			gBound, lBound := globalBound(s), int(s.local)
 			mu.Unlock()
 			if !s.tb {
 				switch via {
 				case "remote":
-					if nowIn > int(s.global) {
-						violated("global_limit_exceeded", "maxinflight/"+string(s.strategy), "schema %s (%s, local %d, global %d): %d requests in flight through the server-controlled limiter", s.name, s.strategy, s.local, s.global, nowIn)
+					if nowIn > gBound {
+						violated("global_limit_exceeded", "maxinflight/"+string(s.strategy), "schema %s (%s, local %d, global %d): %d requests in flight through the server-controlled limiter", s.name, s.strategy, s.local, gBound, nowIn)
 					}
 				case "local":
-					if nowIn > int(s.local) {
+					if nowIn > lBound {
 						violated("local_limit_exceeded", "maxinflight", "schema %s: %d requests in flight through the local limiter (limit %d)", s.name, nowIn, s.local)
 					}
 				case "default":
 					violated("unlimited_fallback", "default", "schema %s: request admitted by the default (unlimited) limiter", s.name)
 				}
-				if total > int(s.global) {
+				if total > gBound {
 					r.Finding("instance_total_exceeds_global", "remote+local", "schema %s (%s, local %d, global %d): %d requests in flight on this instance: %d admitted by the server-controlled limiter and %d by the local limiter (requests admitted by one limiter object are invisible to the other after a readiness change)",
 						s.name, s.strategy, s.local, s.global, total, nRemote, nLocal)
 				}
 			}
-			time.Sleep(hold)
-			fc.Release()
-			mu.Lock()
-			inflight[k]--
-			mu.Unlock()
+			go func() {
+				time.Sleep(hold)
+				mu.Lock()
+				fc.Release()
+				inflight[k]--
+				mu.Unlock()
+			}()
 		}()
 	}
 
 	nSteps := t.Range(20, 120)
+	lowered := 0
 	for step := 0; step < nSteps && !r.Violated(); step++ {
 		r.Step = step
-		switch t.Pick([]int{10, 8, 2, 1, 1}) {
+		switch t.Pick([]int{10, 8, 2, 1, 1, 2, 2}) {
 		case 0: // a burst of requests
 			s := schemas[t.Draw(len(schemas))]
 			n := t.Range(1, int(s.global)+4)
@@ -331,8 +424,53 @@ func RunC09(r *sim.Run) {
 			net.Partition("gw-0", "rl-0:8443", cut)
 			r.Logf("partition=%v", cut)
 			r.Fault("partition")
+		case 5: // the limits of a max-in-flight schema change
+			var mifs []*c09Schema
+			for _, s := range schemas {
+				if !s.tb {
+					mifs = append(mifs, s)
+				}
+			}
+			if len(mifs) == 0 {
+				break
+			}
+			s := mifs[t.Draw(len(mifs))]
+			nl := int32(t.Range(1, 4))
+			ng := nl + int32(t.Range(0, 12))
+			st.mu.Lock()
+			mu.Lock()
+			if old := int32(globalBound(s)); ng < old {
+				s.graceOld, s.graceFrom = old, allocReturned
+				lowered++
+			}
+			s.local, s.global = nl, ng
+			mu.Unlock()
+			st.mu.Unlock()
+			// a new object, as an informer would deliver it (the limiter keeps the one it was given)
+			spec = *spec.DeepCopy()
+			for i := range spec.Schemas {
+				if spec.Schemas[i].Name == s.name {
+					spec.Schemas[i].MaxRequestsInflight = &proxyv1alpha1.MaxRequestsInflightFlowControlSchema{Max: nl}
+					spec.Schemas[i].GlobalMaxRequestsInflight = &proxyv1alpha1.MaxRequestsInflightFlowControlSchema{Max: ng}
+				}
+			}
+			lim.Sync(spec)
+			r.Logf("schema %s limits now local=%d global=%d", s.name, nl, ng)
+		case 6:
+			st.mu.Lock()
+			st.sticky = !st.sticky
+			r.Logf("server repeats its previous answers=%v", st.sticky)
+			st.mu.Unlock()
 		}
 		sc.Settle()
+		mu.Lock()
+		for _, s := range schemas {
+			if s.graceOld > 0 && allocReturned > s.graceFrom {
+				s.graceOld = 0
+				r.Probe("lowered_limit_enforced_after_next_answer")
+			}
+		}
+		mu.Unlock()
 	}
 	if r.Violated() {
 		return
@@ -414,6 +552,7 @@ func RunC09(r *sim.Run) {
 	r.ProbeN("acquire_rpcs", st.acqSeen)
 	st.mu.Unlock()
 	r.ProbeN("requests", reqN)
+	r.ProbeN("global_limit_lowered", lowered)
 	var sample []string
 	for _, s := range schemas {
 		sample = append(sample, fmt.Sprintf("%s tb=%v %s local=%d global=%d maxInflightSeen(remote)=%d (local)=%d", s.name, s.tb, s.strategy, s.local, s.global, maxSeen[s.name+"|remote"], maxSeen[s.name+"|local"]))
